@@ -444,10 +444,10 @@ pub fn run(cfg: &Cfg, rep: &mut Rep) {
         let y = 1600 + k * 2 + (k % 3);
         let suffix = ["", "Z", " UTC", " TAI", "+01:00", " GPST", ".5 TT"][(k % 7) as usize];
         let (m, d) = (1 + (k % 12) as u32, 1 + (k % 28) as u32);
-        for bad in [0u32, 13, 99] {
+        for bad in [0u32, 13, 99, 256 + m, 65_536 + m] {
             check_out_of_range(rep, y, bad, d, 10, 20, 30, suffix, "month");
         }
-        for bad in [0u32, 32, 99] {
+        for bad in [0u32, 32, 99, 256 + d, 65_536 + d] {
             check_out_of_range(rep, y, m, bad, 10, 20, 30, suffix, "day");
         }
         check_out_of_range(rep, y, 2, 30, 10, 20, 30, suffix, "30 February");
@@ -456,13 +456,13 @@ pub fn run(cfg: &Cfg, rep: &mut Rep) {
             check_out_of_range(rep, y, 2, 29, 10, 20, 30, suffix, "29 February of a non-leap year");
         }
         check_out_of_range(rep, y, 4 + 2 * (k % 2) as u32 + if k % 4 < 2 { 0 } else { 5 }, 31, 10, 20, 30, suffix, "31st of a 30-day month");
-        for bad in [25u32, 99] {
+        for bad in [25u32, 99, 256 + 10, 65_536 + 10] {
             check_out_of_range(rep, y, m, d, bad, 20, 30, suffix, "hour");
         }
-        for bad in [60u32, 99] {
+        for bad in [60u32, 99, 256 + 20, 65_536 + 20] {
             check_out_of_range(rep, y, m, d, 10, bad, 30, suffix, "minute");
         }
-        for bad in [61u32, 99] {
+        for bad in [61u32, 99, 256 + 30, 65_536 + 30] {
             check_out_of_range(rep, y, m, d, 10, 20, bad, suffix, "second");
         }
         // UTC offsets: hours 24..99, minutes 60..99
